@@ -655,3 +655,370 @@ def reaches_avoiding(fa: FA, start: int, avoid, targets) -> bool:
             nxt = env if l == "exc" else after
             stack.append((d, tuple(sorted(nxt.items(), key=lambda kv: kv[0]))))
     return False
+
+
+# ---- where a value comes from, across the helpers of the repository ------------------------------------------
+class ValueSlice:
+    """What the value of an expression is computed from (value flow only; tests that merely select between values are
+    not part of it), followed through locals, containers that are filled piecemeal, comprehensions and the functions
+    of this repository that are called on the way (their returned / yielded values; a parameter the callee's result is
+    computed from stands for the argument bound to it).  The walk does not look inside a call for which `stop` holds:
+    such a call is a source in its own right.
+
+      nodes    [(FA, ast node, cfg node id)]  every expression node of the flow
+      stopped  [(FA, call)]                   the `stop` calls the flow ends in
+      units    [FuncInfo]                     the functions whose results are part of the flow
+    """
+
+    def __init__(self, ck, stop: Callable[[ast.Call], bool], max_depth: int = 6):
+        self.ck = ck
+        self.stop = stop
+        self.max_depth = max_depth
+        self.nodes = []
+        self.stopped = []
+        self.units = []
+        self._fas = {}
+        self._seen_defs = set()
+        self._seen_sites = set()
+        self._seen_expr = set()
+        self._bound = []
+        self._results = {}
+
+    def fa_of(self, fi) -> FA:
+        f = self._fas.get(id(fi))
+        if f is None:
+            f = self._fas[id(fi)] = FA(self.ck, fi)
+        return f
+
+    # -- callee resolution
+    def _callees(self, fa: FA, call):
+        try:
+            cands, how = self.ck.cg.resolve(call, fa.fi)
+        except Exception:  # noqa
+            return []
+        if how in ("typed", "module", "nested", "name") and cands:
+            return list(cands)
+        return []
+
+    def _instance_class(self, fa: FA, e, at, depth=0):
+        """The class of this repository an expression is a fresh instance of: `Reader(...)`, or a local bound to one."""
+        if depth > 4 or e is None:
+            return None
+        if isinstance(e, ast.Call):
+            f = e.func
+            if isinstance(f, ast.Name) and f.id in fa.fi.module.classes:
+                return fa.fi.module.classes[f.id]
+            try:
+                cands, how = self.ck.cg.resolve(e, fa.fi)
+            except Exception:  # noqa
+                return None
+            if how == "ctor" and cands and cands[0].cls is not None:
+                return cands[0].cls
+            return None
+        if isinstance(e, ast.Name) and fa.df.is_local(e.id):
+            ds = fa.df.reaching(at, e.id)
+            if len(ds) == 1 and ds[0].kind in ("assign", "with") and ds[0].value is not None:
+                return self._instance_class(fa, ds[0].value, ds[0].node, depth + 1)
+        return None
+
+    def _method_of_instance(self, fa: FA, call, at):
+        """`Reader(...)(x)` / `reader(x)` / `reader.read(x)` with `reader = Reader(...)`: the method that runs."""
+        f = call.func
+        c = self._instance_class(fa, f, at)
+        if c is not None:
+            m = self.ck.repo.find_method(c, "__call__")
+            return [m] if m is not None else []
+        if isinstance(f, ast.Attribute):
+            c = self._instance_class(fa, f.value, at)
+            if c is not None:
+                m = self.ck.repo.find_method(c, f.attr)
+                return [m] if m is not None else []
+        return []
+
+    def _function_value(self, fa: FA, n):
+        """The repository function an expression that is not called on the spot designates (`self._read`, `_load`)."""
+        cls = fa.fi.cls
+        if isinstance(n, ast.Attribute) and isinstance(n.value, ast.Name) and cls is not None and n.value.id in ("self", "cls", cls.node.name):
+            m = self.ck.repo.find_method(cls, n.attr)
+            if m is not None and "property" not in m.decorators:
+                return m
+        if isinstance(n, ast.Name):
+            p = fa.fi
+            while p is not None:
+                if n.id in p.nested:
+                    return p.nested[n.id]
+                p = p.parent
+            if not fa.df.is_local(n.id) and n.id in fa.fi.module.functions:
+                return fa.fi.module.functions[n.id]
+        return None
+
+    def _results_of(self, fi, stack):
+        """Follow what `fi` returns / yields; -> names of its parameters the result is computed from."""
+        if any(fi is x for x in stack) or len(stack) >= self.max_depth:
+            return set(fi.params)
+        if id(fi) in self._results:
+            return self._results[id(fi)]
+        if not any(fi is x for x in self.units):
+            self.units.append(fi)
+        cfa = self.fa_of(fi)
+        hit = set()
+        saved, self._bound = self._bound, []
+        outs = []
+        for n in A.walk_body(fi.node):
+            if isinstance(n, ast.Return) and n.value is not None:
+                outs.append((n.value, n))
+            elif isinstance(n, (ast.Yield, ast.YieldFrom)) and n.value is not None:
+                outs.append((n.value, cfa.stmt_of(n)))
+        for (v, st) in outs:
+            ids = cfa.nodes(st) if st is not None else []
+            if ids:
+                self._expr(cfa, v, ids[0], stack + [fi], hit)
+        self._bound = saved
+        self._results[id(fi)] = hit
+        return hit
+
+    def _bind(self, fi, call):
+        """{parameter: argument expr} of a call of fi (None when */** arguments hide the binding)."""
+        if any(isinstance(a, ast.Starred) for a in call.args) or any(k.arg is None for k in call.keywords):
+            return None
+        params = list(fi.params)
+        bound_recv = fi.cls is not None and not fi.is_static and params and isinstance(call.func, ast.Attribute)
+        if bound_recv:
+            recv = call.func.value
+            # Class.method(obj, ...) passes the receiver explicitly
+            explicit = isinstance(recv, ast.Name) and fi.cls is not None and recv.id == fi.cls.node.name and not fi.is_classmethod
+            if not explicit:
+                params = params[1:]
+        elif fi.cls is not None and not fi.is_static and params and fi.name == "__init__":
+            params = params[1:]
+        out = {}
+        for i, a in enumerate(call.args):
+            if i < len(params):
+                out[params[i]] = a
+        for k in call.keywords:
+            out[k.arg] = k.value
+        return out
+
+    # -- the walk
+    def _name(self, fa: FA, n, at, stack, hit):
+        if fa.df.is_local(n.id):
+            defs = fa.df.reaching(at, n.id)
+            for d in defs:
+                if d.kind == "param":
+                    hit.add(d.name)
+                    continue
+                if d.value is None or d.kind == "except":
+                    continue
+                key = (id(fa.fi), d.node, d.name)
+                if key in self._seen_defs:
+                    continue
+                self._seen_defs.add(key)
+                self._expr(fa, d.value, d.node, stack, hit)
+            here = {(d.node, d.name) for d in defs}
+            for (nm, site, vals) in mutation_sites(fa):
+                if nm != n.id or (id(fa.fi), nm, site) in self._seen_sites:
+                    continue
+                there = {(d.node, d.name) for d in fa.df.reaching(site, nm)}
+                if here & there:
+                    self._seen_sites.add((id(fa.fi), nm, site))
+                    for v in vals:
+                        self._expr(fa, v, site, stack, hit)
+            return
+        # a variable of the enclosing function read by a nested one: whatever the enclosing function binds it to
+        p = fa.fi.parent
+        while p is not None:
+            pfa = self.fa_of(p)
+            if pfa.df.is_local(n.id):
+                if n.id in p.params:
+                    hit.add(n.id)
+                for ds in pfa.df.gen.values():
+                    for d in ds:
+                        if d.name == n.id and d.value is not None and d.kind != "except":
+                            key = (id(p), d.node, d.name)
+                            if key not in self._seen_defs:
+                                self._seen_defs.add(key)
+                                self._expr(pfa, d.value, d.node, stack, hit)
+                return
+            p = p.parent
+
+    def _expr(self, fa: FA, e, at, stack, hit):
+        if e is None:
+            return
+        key = (id(e), at)
+        if key in self._seen_expr:
+            return
+        self._seen_expr.add(key)
+        self.nodes.append((fa, e, at))
+        if isinstance(e, ast.Call):
+            if self.stop(e):
+                self.stopped.append((fa, e))
+                return
+            callees = self._callees(fa, e)
+            if not callees:
+                via = self._method_of_instance(fa, e, at)
+                if via:
+                    # the object is part of the flow (what it was built from), then what its method hands back
+                    self._expr(fa, e.func.value if isinstance(e.func, ast.Attribute) else e.func, at, stack, hit)
+                    for fi in via:
+                        used = self._results_of(fi, stack)
+                        bound = self._bind(fi, ast.Call(func=ast.Attribute(value=ast.Name(id="_", ctx=ast.Load()), attr=fi.name, ctx=ast.Load()),
+                                                       args=e.args, keywords=e.keywords))
+                        for p_, a in (bound or {}).items():
+                            if bound is None or p_ in used or p_ not in fi.params:
+                                self._expr(fa, a, at, stack, hit)
+                        if bound is None:
+                            for a in list(e.args) + [k.value for k in e.keywords]:
+                                self._expr(fa, a.value if isinstance(a, ast.Starred) else a, at, stack, hit)
+                    return
+            if callees:
+                recv = e.func.value if isinstance(e.func, ast.Attribute) else None
+                own = isinstance(recv, ast.Name) and recv.id in ("self", "cls") or \
+                    (isinstance(recv, ast.Name) and fa.fi.cls is not None and recv.id == fa.fi.cls.node.name) or recv is None
+                if not own:
+                    self._expr(fa, recv, at, stack, hit)
+                for fi in callees:
+                    used = self._results_of(fi, stack)
+                    bound = self._bind(fi, e)
+                    if bound is None:
+                        for a in list(e.args) + [k.value for k in e.keywords]:
+                            self._expr(fa, a.value if isinstance(a, ast.Starred) else a, at, stack, hit)
+                        continue
+                    for p_, a in bound.items():
+                        if p_ in used or p_ not in fi.params:
+                            self._expr(fa, a, at, stack, hit)
+                    if own and isinstance(recv, ast.Name) and recv.id in ("self", "cls") and fi.params and fi.params[0] in used:
+                        hit.add(recv.id)
+                return
+            self._expr(fa, e.func, at, stack, hit)
+            for a in e.args:
+                self._expr(fa, a.value if isinstance(a, ast.Starred) else a, at, stack, hit)
+            for k in e.keywords:
+                self._expr(fa, k.value, at, stack, hit)
+            return
+        if isinstance(e, ast.Name):
+            if any(e.id in b for b in self._bound):
+                return
+            if isinstance(e.ctx, ast.Load):
+                fv = self._function_value(fa, e)
+                if fv is not None:
+                    self._results_of(fv, stack)
+                else:
+                    self._name(fa, e, at, stack, hit)
+            return
+        if isinstance(e, ast.Attribute):
+            fv = self._function_value(fa, e)
+            if fv is not None:
+                self._results_of(fv, stack)
+                return
+            self._expr(fa, e.value, at, stack, hit)
+            return
+        if isinstance(e, (ast.Lambda, ast.ListComp, ast.SetComp, ast.GeneratorExp, ast.DictComp)):
+            # the names a comprehension / lambda binds stand for elements of its iterables (walked as well) or for
+            # arguments, not for locals of the function
+            self._bound.append(_bound_names(e))
+            try:
+                for c in ast.iter_child_nodes(e):
+                    if isinstance(c, ast.expr):
+                        self._expr(fa, c, at, stack, hit)
+                    elif isinstance(c, ast.comprehension):
+                        self._expr(fa, c.iter, at, stack, hit)
+                        for x in c.ifs:
+                            pass  # (a filter selects, it does not contribute a value)
+            finally:
+                self._bound.pop()
+            return
+        for c in ast.iter_child_nodes(e):
+            if isinstance(c, ast.expr):
+                self._expr(fa, c, at, stack, hit)
+            elif isinstance(c, ast.keyword):
+                self._expr(fa, c.value, at, stack, hit)
+
+    def of_results(self, fi):
+        """Slice of everything the function hands back."""
+        self._results_of(fi, [])
+        return self
+
+
+def _written_after_construction(ck, owner_cls, module, name) -> List[str]:
+    """Sites (function qualnames) that put something into the object held by an attribute of a class (`self.<name>` /
+    `cls.<name>` / `<Class>.<name>`) or by a module-level variable, or rebind it, other than its initialisation in
+    __init__ / the class body / at module level: such a variable is state that survives from one call to the next."""
+    from .memo import Table, _uses
+    out = []
+    if owner_cls is not None:
+        t = Table(owner_cls.qual if hasattr(owner_cls, "qual") else owner_cls.node.name, name, "self")
+    else:
+        t = Table(module.name if hasattr(module, "name") else "", name, "module")
+    for fi in ck.repo.all_funcs():
+        if owner_cls is None and fi.module is not module:
+            continue
+        if not any((isinstance(n, ast.Attribute) and n.attr == name) or (isinstance(n, ast.Name) and n.id == name) for n in ast.walk(fi.node)):
+            continue
+        if owner_cls is not None:
+            c = fi.cls
+            p = fi
+            while c is None and p.parent is not None:
+                p = p.parent
+                c = p.cls
+            if c is None or not (c is owner_cls or owner_cls in ck.repo.mro(c) or c in ck.repo.mro(owner_cls)):
+                continue
+        fa = FA(ck, fi)
+        try:
+            r, w, rm = _uses(fa, t)
+        except Exception:  # noqa
+            r, w, rm = [], [], []
+        if w:
+            out.append(fi.qual)
+            continue
+        if fi.name == "__init__" and owner_cls is not None:
+            continue
+        for st in fa.stmts((ast.Assign, ast.AugAssign, ast.AnnAssign)):
+            tg = st.targets if isinstance(st, ast.Assign) else [st.target]
+            flat = [x for t_ in tg for x in (t_.elts if isinstance(t_, (ast.Tuple, ast.List)) else [t_])]
+            if owner_cls is not None and any(isinstance(x, ast.Attribute) and x.attr == name and isinstance(x.value, ast.Name)
+                                             and x.value.id in ("self", "cls", owner_cls.node.name) for x in flat):
+                out.append(fi.qual)
+                break
+            if owner_cls is None and any(isinstance(x, ast.Name) and x.id == name for x in flat) and \
+                    any(isinstance(g, ast.Global) and name in g.names for g in ast.walk(fi.node)):
+                out.append(fi.qual)
+                break
+    return out
+
+
+def surviving_state_in(ck, sl: ValueSlice):
+    """[(FA, ast node, 'self.x' / 'NAME', [writer qualnames])]: the places where a value slice reads a variable that
+    outlives the call (an attribute of the object / class, a module-level variable) AND that is written again after it
+    was set up — something an earlier call may have left there."""
+    out = []
+    memo = {}
+    for (fa, n, at) in sl.nodes:
+        owner, mod, name, label = None, None, None, None
+        cls = fa.fi.cls
+        p = fa.fi
+        while cls is None and p.parent is not None:
+            p = p.parent
+            cls = p.cls
+        if isinstance(n, ast.Attribute) and isinstance(n.value, ast.Name) and isinstance(n.ctx, ast.Load) and cls is not None \
+                and n.value.id in ("self", "cls", cls.node.name):
+            if ck.repo.find_method(cls, n.attr) is not None:
+                continue
+            owner, name, label = cls, n.attr, "%s.%s" % (n.value.id, n.attr)
+        elif isinstance(n, ast.Name) and isinstance(n.ctx, ast.Load) and not fa.df.is_local(n.id) and n.id in fa.fi.module.assigns:
+            q = fa.fi.parent
+            shadow = False
+            while q is not None:
+                if sl.fa_of(q).df.is_local(n.id):
+                    shadow = True
+                q = q.parent
+            if shadow:
+                continue
+            mod, name, label = fa.fi.module, n.id, n.id
+        else:
+            continue
+        key = (id(owner), id(mod), name)
+        if key not in memo:
+            memo[key] = _written_after_construction(ck, owner, mod, name)
+        if memo[key]:
+            out.append((fa, n, label, memo[key]))
+    return out
